@@ -17,6 +17,7 @@ import (
 // to a Function built in the calling function (NewFunction(...).SetName(...) chains included).
 func ruleFunctionImmutable(c *Ctx, u *Universe, rule string) {
 	R := c.R
+	R.Explain += strings.Replace(" (%s) a field of value.Function is stored only on an object built in the storing function, or by a method whose every call site applies it to a function built there (library functions are process-wide objects).", "%s", rule, 1)
 	mutators := map[*ssa.Function]bool{}
 	n := 0
 	for _, rel := range corePkgs {
@@ -141,6 +142,7 @@ func freshFunctionValue(v ssa.Value, mutators map[*ssa.Function]bool) bool {
 // the handler entry recognises the payload by that interface, anything else is never intercepted.
 func ruleExceptionPayload(c *Ctx, u *Universe, rule string) {
 	R := c.R
+	R.Explain += strings.Replace(" (%s) the payload wrapped by every NewExceptionSignal call implements runtime.Element.", "%s", rule, 1)
 	elemObj := u.obj("pkg/runtime", "Element")
 	if elemObj == nil {
 		R.lost(rule, "pkg/runtime.Element")
@@ -187,6 +189,7 @@ func ruleExceptionPayload(c *Ctx, u *Universe, rule string) {
 // fmt formatting function with a non-constant format and no further argument interprets every % of the data.
 func ruleFormatConst(c *Ctx, u *Universe, rule string) {
 	R := c.R
+	R.Explain += strings.Replace(" (%s) no fmt formatting call in pkg/value / pkg/exec uses computed text as the format with no arguments (display forms containing % stay verbatim).", "%s", rule, 1)
 	fmtIdx := map[string]int{"fmt.Sprintf": 0, "fmt.Errorf": 0, "fmt.Printf": 0, "fmt.Fprintf": 1}
 	n, bad := 0, 0
 	for _, rel := range []string{"pkg/value", "pkg/exec"} {
@@ -230,6 +233,7 @@ func ruleFormatConst(c *Ctx, u *Universe, rule string) {
 // constant it may answer is the end-of-input marker chosen without looking at the character.
 func ruleGetCharVerbatim(c *Ctx, u *Universe, rule string) {
 	R := c.R
+	R.Explain += strings.Replace(" (%s) Lexer.getChar answers Source[idx] itself; a constant only where no character was read.", "%s", rule, 1)
 	f := u.ssaFunc("pkg/syntax", "Lexer.getChar")
 	if f == nil {
 		if into := u.inlinedInto("pkg/syntax", "Lexer.getChar"); into != "" {
@@ -295,6 +299,7 @@ func ruleGetCharVerbatim(c *Ctx, u *Universe, rule string) {
 // a test of a first-read flag; a stream type without such a flag must not strip anything.
 func ruleBomOnlyFirst(c *Ctx, u *Universe, rule string) {
 	R := c.R
+	R.Explain += strings.Replace(" (%s, package-wide) every comparison with U+FEFF in pkg/io lies in the first-read region of the first-read flag.", "%s", rule, 1)
 	n := 0
 	for _, f := range u.srcFuncs("pkg/io") {
 		for _, in := range instrsOf(f) {
@@ -373,6 +378,7 @@ func keyOrderOwner(u *Universe, v ssa.Value) ssa.Value {
 // contents only (a parsed / rebuilt dictionary with the same entries in another order is the same dictionary).
 func ruleDictEqByContent(c *Ctx, u *Universe, rule string) {
 	R := c.R
+	R.Explain += strings.Replace(" (%s) no ==/!= between the key at a position of one dictionary's order list and the key at a position of another's: dictionary equality is by content.", "%s", rule, 1)
 	n, bad := 0, 0
 	for _, rel := range []string{"pkg/exec", "pkg/value", "pkg/common", "stdlib/json"} {
 		for _, f := range u.srcFuncs(rel) {
@@ -403,6 +409,7 @@ func ruleDictEqByContent(c *Ctx, u *Universe, rule string) {
 // mark of a live imported name, which then runs in the importer's module instead of its own.
 func ruleExternalRefsOwner(c *Ctx, u *Universe, rule string) {
 	R := c.R
+	R.Explain += strings.Replace(" (%s) Scope.externalRefs (home-module marks of imported names) is written only by the owners listed in tables/owners.json.", "%s", rule, 1)
 	var owners map[string]map[string]string
 	if !loadTable(c, "owners.json", &owners) {
 		return
@@ -441,6 +448,7 @@ func sortStrings(s []string) {
 // every other start belongs to the bookkeeping goroutine and goes through the reservation counter.
 func ruleInitialPool(c *Ctx, su *Universe, rule string) {
 	R := c.R
+	R.Explain += strings.Replace(" (%s) StartMaster starts workers on its own account only inside the counted loop i < InitProcs.", "%s", rule, 1)
 	f := su.ssaFunc("pkg/server", "ZnPMServer.StartMaster")
 	if f == nil {
 		R.lost(rule, "pkg/server.ZnPMServer.StartMaster")
@@ -510,6 +518,7 @@ func valueFieldName(v ssa.Value) string {
 // constant 0 or the count answered by setIndentType in the same function - never a value carried over from another line.
 func ruleLineIndents(c *Ctx, u *Universe, rule string) {
 	R := c.R
+	R.Explain += strings.Replace(" (%s) every store to LineInfo.Indents stores 0 or the count answered by setIndentType in the same function (side condition of the reviewed line-text slices).", "%s", rule, 1)
 	n := 0
 	for _, rel := range corePkgs {
 		for _, f := range u.srcFuncs(rel) {
@@ -552,6 +561,7 @@ func ruleLineIndents(c *Ctx, u *Universe, rule string) {
 // integer parsers (base prefixes, octal leading zeros, range errors) do not implement the documented decimal form.
 func ruleNumberViaParseFloat(c *Ctx, u *Universe, rule string) {
 	R := c.R
+	R.Explain += strings.Replace(" (%s) the only text-to-number conversion on the literal path (id_match.go) is strconv.ParseFloat.", "%s", rule, 1)
 	n, bad := 0, 0
 	for _, f := range u.srcFuncs("pkg/exec") {
 		file := u.pos(f.Pos())
